@@ -24,23 +24,33 @@ from kappadata.collators import KDComposeCollator, KDMixCollator
 from kappadata.common.collators import MAEFinetuneMixCollator
 from kappadata.wrappers.mode_wrapper import ModeWrapper
 
-from .h10_mix import LABEL_TOL, W_EPS, MixLeaf, encode, image_fits, label_fit, perfect_matching
-from .harness import call_real, same
+from .h10_mix import LABEL_TOL, W_EPS, MixLeaf, encode, image_fits, label_fit, make_layout_collator, perfect_matching
+from .harness import call_real, canon_value, same
 
 LEVEL = "exploration"
-RULE = ("systematic sweep over apply x lamb x shuffle x {mixup,cutmix,mixed} x driver {KDMixCollator, KDComposeCollator, "
-        "MAEFinetuneMixCollator, DataLoader(collate_fn)} followed by random cases: B in 1..9 (flip mostly even), C in 1..4, "
+RULE = ("systematic sweep over apply x lamb x shuffle x {mixup,cutmix,mixed} x driver {KDMixCollator, KDComposeCollator, KDComposeCollator "
+        "behind a harness collator that hands image/label on in a non-contiguous layout (NHWC / channels_last / strided slices / reversed "
+        "storage; strided / transposed / expanded labels), MAEFinetuneMixCollator, DataLoader(collate_fn)} followed by random cases: B in 1..9 (flip mostly even), C in 1..4, "
         "H,W in 1..24 (1-pixel, non-square), one-hot (2..10 classes, unique or repeated; float32 / float64 / float16 / "
         "int64 as produced by F.one_hot), label-smoothed (float32 / float64), binary int/float/soft-scalar labels "
         "(python numbers, float32 / float64 / int64 tensors) or no label item, dataset modes = random permutations of x [class] [index aux meta "
         "name ctx.src], 15% with repeated item names (x / class / others listed twice), return_ctx on/off, alphas 0.1..8, collator seeds; "
         "30% of the cases are histories: the same collator instance collates 2..4 consecutive batches (same shape with fresh ids, or B/C/H/W "
-        "changed in between), each judged against its own inputs; a case is distinct by its full spec and trivial if it is a single batch with B == 1")
+        "changed in between), each judged against its own inputs and re-read after the whole history (nothing emitted earlier may change); before 35% of the "
+        "later batches the collator is reconfigured through its public attributes (all seven, or shuffle_mode only) and the batch is judged "
+        "against the configuration the object then reports; a case is distinct by its full spec and trivial if it is a single batch with B == 1")
 ASSUMPTIONS = [
     "mixup_p + cutmix_p == 1 only (the constructor refuses other sums with NotImplementedError; 'apply' is therefore always true and not judged)",
     "dataset modes always contain 'x' (the collator derives the batch size from the image item)",
     "a dataset mode may list an item name twice (ModeWrapper has no uniqueness check): the first occurrence of x / class is the mixed one "
     "(ModeWrapper.get_item / set_item address the first occurrence), every later copy is judged as a pass-through item (silent on the pristine tree)",
+    "reconfiguration: mixup_alpha, cutmix_alpha, mixup_p, cutmix_p, apply_mode, lamb_mode, shuffle_mode are plain public attributes read at call "
+    "time on /repo; they are only reassigned to value sets the constructor accepts (normalised the way the constructor stores them); "
+    "dataset_mode / return_ctx are not reassigned; batches after a reconfiguration do not count for the random-shuffle statistic",
+    "a probability of 0 means that kind of mix never happens (mix-kind-not-configured) and lamb_mode='batch' means one weight for the whole batch "
+    "(class docstring); that lamb_mode='sample' weights differ and apply_mode are not judged",
+    "expanded (stride-0) labels are driven only where all samples share the label and the label dtype is not float32: a float32 label is mixed in "
+    "place, which torch refuses for overlapping memory on /repo as well (RuntimeError) - outside the claim",
     "histories: batches of one history share mode, label kind/dtype and collator instance; a flip refusal of an odd batch does not end the history",
     "shuffle_mode='random' is read as a permutation of the batch (DESIGN C10: a bijection shared by image and label); fixed points are allowed",
     "flip with an odd batch size is an enumerated refusal class (the collator's own assert); if the call returns, the oracle is applied with p(i)=B-1-i",
@@ -51,7 +61,8 @@ ASSUMPTIONS = [
     "statistical clause (random shuffling really moves samples): only batches with B>=5, pure mixup, alpha>=1, 6-bit ids count; a correct "
     "implementation leaves such a batch unmoved with probability < 0.02, the clause fires only if >= 8 such batches were all unmoved (< 2.6e-14)",
 ]
-MONITORS = ["history_batches_checked", "repeated_item_copies_compared", "batches_checked", "samples_checked", "cutmix_box_decoded", "mixup_weight_decoded", "label_weight_decoded",
+MONITORS = ["noncontiguous_input_batches_checked", "reconfigured_batches_checked", "earlier_outputs_rechecked", "mix_kind_checked",
+            "batch_lambda_shared_checked", "history_batches_checked", "repeated_item_copies_compared", "batches_checked", "samples_checked", "cutmix_box_decoded", "mixup_weight_decoded", "label_weight_decoded",
             "image_label_weight_compared", "ctx_lambda_compared", "partner_identified_from_output", "passthrough_items_compared",
             "layout_checked", "binary_labels_checked", "random_bijection_checked", "non_float32_label_batches_checked"]
 
@@ -59,7 +70,10 @@ APPLY = ["batch", "sample"]
 LAMB = ["batch", "sample"]
 SHUFFLE = ["roll", "flip", "random"]
 SPLITS = ["mixup", "cutmix", "mixed"]
-DRIVERS = ["single", "compose", "loader", "mae"]
+DRIVERS = ["single", "compose", "layout", "loader", "mae"]
+IMAGE_LAYOUTS = ["nhwc", "nhwc", "channels_last", "strided_hw", "strided_batch", "whcn"]
+LABEL_LAYOUTS = ["contiguous", "strided", "transposed", "expanded"]
+CFG_ATTRS = ["mixup_alpha", "cutmix_alpha", "mixup_p", "cutmix_p", "apply_mode", "lamb_mode", "shuffle_mode"]
 ALPHAS = [0.1, 0.4, 0.8, 1.0, 1.0, 2.0, 8.0]
 MIXED_P = [(0.5, 0.5), (0.5, 0.5), (0.2, 0.8), (0.8, 0.2), (0.9, 0.1), (0.1, 0.9), (0.3, 0.7), (0.25, 0.75)]
 EXTRA_ITEMS = ["index", "aux", "meta", "name"]
@@ -94,14 +108,8 @@ def _gen_dim(rng):
     return rng.choice([1, 1, 2, 3, 4, 5, 6, 7, 8, 8, 12, 16, rng.randint(1, 24)])
 
 
-def _gen_case(rng, combo=None):
-    apply_mode, lamb_mode, shuffle_mode, split, driver = combo or (
-        rng.choice(APPLY), rng.choice(LAMB), rng.choice(SHUFFLE), rng.choice(SPLITS),
-        rng.choice(["single", "single", "single", "compose", "compose", "loader", "mae"]))
-    if driver == "mae":
-        apply_mode, lamb_mode, shuffle_mode, split = "batch", "batch", "flip", "mixed"
-        cfg = {"mixup_alpha": 0.8, "cutmix_alpha": 1.0, "mixup_p": 0.5, "cutmix_p": 0.5}
-    elif split == "mixup":
+def _gen_cfg(rng, apply_mode, lamb_mode, shuffle_mode, split):
+    if split == "mixup":
         cfg = {"mixup_alpha": rng.choice(ALPHAS), "mixup_p": 1.0}
         if rng.random() < 0.5:
             cfg.update(cutmix_p=0.0)
@@ -113,6 +121,19 @@ def _gen_case(rng, combo=None):
         mp, cp = rng.choice(MIXED_P)
         cfg = {"mixup_alpha": rng.choice(ALPHAS), "cutmix_alpha": rng.choice(ALPHAS), "mixup_p": mp, "cutmix_p": cp}
     cfg.update(apply_mode=apply_mode, lamb_mode=lamb_mode, shuffle_mode=shuffle_mode)
+    return cfg
+
+
+def _gen_case(rng, combo=None):
+    apply_mode, lamb_mode, shuffle_mode, split, driver = combo or (
+        rng.choice(APPLY), rng.choice(LAMB), rng.choice(SHUFFLE), rng.choice(SPLITS),
+        rng.choice(["single", "single", "single", "compose", "layout", "layout", "loader", "mae"]))
+    if driver == "mae":
+        apply_mode, lamb_mode, shuffle_mode, split = "batch", "batch", "flip", "mixed"
+        cfg = {"mixup_alpha": 0.8, "cutmix_alpha": 1.0, "mixup_p": 0.5, "cutmix_p": 0.5}
+        cfg.update(apply_mode=apply_mode, lamb_mode=lamb_mode, shuffle_mode=shuffle_mode)
+    else:
+        cfg = _gen_cfg(rng, apply_mode, lamb_mode, shuffle_mode, split)
     B = rng.choice([1, 2, 2, 3, 4, 4, 5, 6, 6, 7, 8, 8, 9])
     if shuffle_mode == "flip" and B % 2 == 1 and rng.random() < 0.85:
         B += 1 if B < 9 else -1
@@ -155,6 +176,8 @@ def _gen_case(rng, combo=None):
         label = _gen_label(rng, B, want_class)
     spec = {"driver": driver, "cfg": cfg, "split": split, "B": B, "C": C, "H": H, "W": W, "bits": bits, "ids": ids, "order": order,
             "label": label, "mode": mode, "return_ctx": return_ctx, "rng_seed": rng.randrange(2 ** 31)}
+    if driver == "layout":
+        spec["layout"] = [rng.choice(IMAGE_LAYOUTS), rng.choice(LABEL_LAYOUTS)]
     if rng.random() < 0.3:
         spec["more"] = _gen_more(rng, spec)
     if B == 1 and not spec.get("more"):
@@ -179,13 +202,24 @@ def _gen_more(rng, spec):
     """1..3 further batches collated by the SAME collator instance: same shape (fresh ids) or a changed B / C / H / W"""
     more, used = [], set(spec["ids"])
     cur = {k: spec[k] for k in ("B", "C", "H", "W")}
+    shuffle_mode = spec["cfg"]["shuffle_mode"]
     for _ in range(rng.choice([1, 1, 2, 3])):
+        recfg = None
+        if rng.random() < 0.35:
+            # reconfiguration through the collator's public attributes before this batch (all seven are plain attributes read at call time)
+            split = rng.choice(SPLITS)
+            recfg = {"split": split, "cfg": _gen_cfg(rng, rng.choice(APPLY), rng.choice(LAMB), rng.choice(SHUFFLE), split)}
+            if rng.random() < 0.4:  # only the partner rule changes
+                recfg = {"split": None, "cfg": {"shuffle_mode": rng.choice([m for m in SHUFFLE if m != shuffle_mode])}}
+            shuffle_mode = recfg["cfg"]["shuffle_mode"]
+            if shuffle_mode == "flip" and cur["B"] % 2 == 1 and rng.random() < 0.85:
+                cur = dict(cur, B=cur["B"] + 1)
         if rng.random() < 0.35:
             cur = dict(cur)
             what = rng.choice(["B", "HW", "C", "all"])
             if what in ("B", "all"):
                 B = rng.choice([1, 2, 3, 4, 5, 6, 8])
-                if spec["cfg"]["shuffle_mode"] == "flip" and B % 2 == 1 and rng.random() < 0.85:
+                if shuffle_mode == "flip" and B % 2 == 1 and rng.random() < 0.85:
                     B += 1
                 cur["B"] = B
             if what in ("HW", "all"):
@@ -200,13 +234,15 @@ def _gen_more(rng, spec):
         if rng.random() < 0.5:
             rng.shuffle(order)
         more.append(dict(cur, ids=ids, order=order, label=_regen_label(rng, spec["label"], B)))
+        if recfg is not None:
+            more[-1]["recfg"] = recfg
     return more
 
 
 def gen_cases(run):
     n = run.n(4800, 280000)
     rng = run.rng
-    combos = [(a, l, s, sp, d) for d in ["single", "compose", "loader"] for a in APPLY for l in LAMB for s in SHUFFLE for sp in SPLITS]
+    combos = [(a, l, s, sp, d) for d in ["single", "compose", "layout", "loader"] for a in APPLY for l in LAMB for s in SHUFFLE for sp in SPLITS]
     combos += [("batch", "batch", "flip", "mixed", "mae")] * 6
     if run.shard is not None:
         rng.shuffle(combos)
@@ -222,11 +258,37 @@ def _build_collator(spec):
     if spec["driver"] == "compose":
         return KDComposeCollator(collators=[KDMixCollator(**spec["cfg"])], dataset_mode=spec["mode"],
                                  return_ctx=spec["return_ctx"]).set_rng(rng)
+    if spec["driver"] == "layout":
+        return KDComposeCollator(collators=[make_layout_collator(*spec["layout"]), KDMixCollator(**spec["cfg"])], dataset_mode=spec["mode"],
+                                 return_ctx=spec["return_ctx"]).set_rng(rng)
     return KDMixCollator(**spec["cfg"], dataset_mode=spec["mode"], return_ctx=spec["return_ctx"]).set_rng(rng)
 
 
-def _cfgclass(spec):
-    return f"lamb={spec['cfg']['lamb_mode']}:split={spec['split']}"
+def _cfgclass(cfg, split):
+    return f"lamb={cfg['lamb_mode']}:split={split}"
+
+
+def _mix_collator_of(coll):
+    return coll if isinstance(coll, KDMixCollator) else next(c for c in coll.collators if isinstance(c, KDMixCollator))
+
+
+def _split_of(cfg):
+    mp, cp = cfg.get("mixup_p") or 0., cfg.get("cutmix_p") or 0.
+    return "mixup" if cp == 0 else "cutmix" if mp == 0 else "mixed"
+
+
+def _reconfigure(coll, state, recfg):
+    """assign the public attributes of the mix collator; state = the configuration the object now reports"""
+    mix = _mix_collator_of(coll)
+    new = dict(recfg["cfg"])
+    if recfg.get("split") is not None:  # full reconfiguration: normalise like the constructor does
+        new = {"mixup_alpha": new.get("mixup_alpha"), "cutmix_alpha": new.get("cutmix_alpha"), "mixup_p": new.get("mixup_p") or 0.,
+               "cutmix_p": new.get("cutmix_p") or 0., "apply_mode": new["apply_mode"], "lamb_mode": new["lamb_mode"], "shuffle_mode": new["shuffle_mode"]}
+    for a, v in new.items():
+        setattr(mix, a, v)
+    state["cfg"] = {a: getattr(mix, a) for a in CFG_ATTRS}
+    state["split"] = _split_of(state["cfg"])
+    state["reconfigured"] = True
 
 
 def _np(t):
@@ -250,21 +312,34 @@ def run_case(run, spec):
     if not ok:
         return
     first = {k: spec[k] for k in ("B", "C", "H", "W", "ids", "order", "label")}
-    earlier = []  # [(batch number, (C,H,W), [reference images])] of the batches this collator instance has already collated
+    earlier = []  # [(batch number, (B,C,H,W), [reference images])] of the batches this collator instance has already collated
+    emitted = []  # [(batch number, names, objects handed out, snapshot at emission)]
+    state = {"cfg": spec["cfg"], "split": spec["split"], "reconfigured": False}
     for k, b in enumerate([first] + list(spec.get("more", []))):
-        if not _run_batch(run, spec, b, coll, k, earlier):
+        if b.get("recfg"):
+            _reconfigure(coll, state, b["recfg"])
+        if not _run_batch(run, spec, b, coll, k, earlier, emitted, state):
             return
+    # nothing handed out for an earlier batch may change when later batches are collated
+    for k, names, objs, snap in emitted[:-1]:
+        for name, o, s0 in zip(names, objs, snap):
+            run.count("earlier_outputs_rechecked")
+            if canon_value(o) != s0:
+                run.violation(f"earlier-output-changed-by-later-batch:{name}", f"batch {k} of a history of {len(emitted)} ({spec['driver']}, {spec['cfg']}, "
+                              f"mode={spec['mode']!r}): {name} was judged correct when it was emitted but reads {_short(o)} after the later batches were "
+                              f"collated by the same collator instance (the emitted object shares state with the collator)")
+                return
 
 
-def _run_batch(run, spec, b, coll, k, earlier):
+def _run_batch(run, spec, b, coll, k, earlier, emitted, state):
     """collate batch number k of the history with `coll` and judge it against ITS OWN inputs; False = stop the case"""
-    cfg, bits = spec["cfg"], spec["bits"]
+    cfg, split, bits = state["cfg"], state["split"], spec["bits"]
     B, C, H, W = b["B"], b["C"], b["H"], b["W"]
     mode, rc, order = spec["mode"], spec["return_ctx"], b["order"]
     items = mode.split(" ")
     first_pos = {it: items.index(it) for it in items}
     shuffle_mode = cfg["shuffle_mode"]
-    cc = _cfgclass(spec)
+    cc = _cfgclass(cfg, split)
     hist = f"batch {k} of a history of {1 + len(spec.get('more', []))}: " if spec.get("more") else ""
     ds = MixLeaf(b["ids"], C, H, W, bits, b["label"])
     mw = ModeWrapper(dataset=ds, mode=mode, return_ctx=rc)
@@ -289,13 +364,19 @@ def _run_batch(run, spec, b, coll, k, earlier):
     run.count("batches_checked")
     bclass = "1" if B == 1 else "2" if B == 2 else "odd" if B % 2 else "even"
     shape_class = "1px" if H * W == 1 else "line" if min(H, W) == 1 else "square" if H == W else "rect"
-    run.cover(spec["driver"], cfg["apply_mode"], cfg["lamb_mode"], shuffle_mode, spec["split"])
+    run.cover(spec["driver"], cfg["apply_mode"], cfg["lamb_mode"], shuffle_mode, split)
+    if spec["driver"] == "layout":
+        run.count("noncontiguous_input_batches_checked")
+        run.cover("layout", spec["layout"][0], spec["layout"][1] if "class" in items else "-", cfg["lamb_mode"], split)
+    if b.get("recfg"):
+        run.count("reconfigured_batches_checked")
+        run.cover("reconfigured", "full" if b["recfg"].get("split") else "shuffle-only", shuffle_mode, cfg["lamb_mode"], split, spec["driver"])
     run.cover("B", bclass, shuffle_mode, spec["label"]["kind"], shape_class)
-    run.cover("label-dtype", spec["label"]["kind"], spec["label"].get("dtype", "native"), cfg["lamb_mode"], spec["split"])
+    run.cover("label-dtype", spec["label"]["kind"], spec["label"].get("dtype", "native"), cfg["lamb_mode"], split)
     run.cover("mode", len(items), "class" in items, rc, spec["driver"], len(set(items)) < len(items))
     if k > 0:
         run.count("history_batches_checked")
-        run.cover("history", "same-shape" if any(e[1] == (B, C, H, W) for e in earlier) else "shape-changed", cfg["lamb_mode"], spec["split"], spec["driver"])
+        run.cover("history", "same-shape" if any(e[1] == (B, C, H, W) for e in earlier) else "shape-changed", cfg["lamb_mode"], split, spec["driver"])
 
     # ---- layout
     ctx = None
@@ -316,6 +397,11 @@ def _run_batch(run, spec, b, coll, k, earlier):
             run.violation("layout:multi-item-mode", f"dataset_mode={mode!r} has {len(items)} items, the collator returned {_shape(out)}")
             return False
         out_items = list(out)
+
+    # ---- remember what was handed out (re-read after the later batches of the history were collated)
+    names = [f"item[{pos}]={it}" for pos, it in enumerate(items)] + ([f"ctx[{ck!r}]" for ck in ctx] if rc else [])
+    objs = list(out_items) + ([ctx[ck] for ck in ctx] if rc else [])
+    emitted.append((k, names, objs, [canon_value(o) for o in objs]))
 
     # ---- pass-through items and ctx entries
     for pos, it in enumerate(items):
@@ -382,6 +468,7 @@ def _run_batch(run, spec, b, coll, k, earlier):
 
     # ---- per-sample decoding
     admissible = []
+    readings = []
     decoded = []
     moved = False
     for i in range(B):
@@ -394,10 +481,11 @@ def _run_batch(run, spec, b, coll, k, earlier):
             J = list(range(B))
         res = _judge_sample(i, J, X, Y, lam, xs, ys)
         if not res["good"]:
-            _report(run, spec, cc, i, J, res, X, Y, lam, xs, ys, hist, earlier)
+            _report(run, spec, cfg, cc, i, J, res, X, Y, lam, xs, ys, hist, earlier)
             return False
         admissible.append(set(res["good"]))
         g = res["good"]
+        readings.append(g)
         j0 = next(iter(g))
         f = g[j0]
         if f["img"]["kind"] == "cutmix":
@@ -420,13 +508,31 @@ def _run_batch(run, spec, b, coll, k, earlier):
         decoded.append([i, sorted(g), f["img"]["kind"], None if f["img"]["w"] is None else round(f["img"]["w"], 5),
                         None if f["w_lab"] is None else round(f["w_lab"], 5), None if lam is None else round(float(lam[i]), 5)])
 
+    # ---- the configuration the object reports: kind of mix (a probability of 0 never happens), one weight per batch in lamb_mode="batch"
+    for i, g in enumerate(readings):
+        if split != "mixed" and not any(_kind_allowed(f, split) for f in g.values()):
+            f = next(iter(g.values()))["img"]
+            run.violation(f"mix-kind-not-configured:{cc}", f"{hist}sample {i} of B={B} ({spec['driver']}, {cfg}): the collator reports "
+                          f"mixup_p={cfg.get('mixup_p')} cutmix_p={cfg.get('cutmix_p')} but the image reads as {_describe(f)}")
+            return False
+    run.count("mix_kind_checked", B)
+    if cfg["lamb_mode"] == "batch":
+        obs = [[(_w_of(f), f["img"]["tol"] + f["lab_tol"]) for f in g.values()] for g in readings]
+        cands = [w for o in obs for w, _ in o if w is not None]
+        shared = not cands or any(all(any(w is None or abs(w - c) <= t + 2 * W_EPS for w, t in o) for o in obs) for c in cands)
+        run.count("batch_lambda_shared_checked")
+        if not shared:
+            run.violation(f"batch-lambda-not-shared:split={split}", f"{hist}lamb_mode='batch' (B={B}, {spec['driver']}, {cfg}) promises one lambda for the whole "
+                          f"batch but the samples were mixed with different weights: {[[None if w is None else round(w, 5) for w, _ in o] for o in obs]}")
+            return False
+
     if shuffle_mode == "random":
         run.count("random_bijection_checked")
         if not perfect_matching(admissible):
             run.violation(f"random-partner-not-a-permutation:{cc}", f"shuffle_mode=random: no bijection fits the decoded partners {[sorted(a) for a in admissible]} "
                           f"(several samples were mixed with the same partner)")
             return False
-        if B >= 5 and spec["split"] == "mixup" and cfg["mixup_alpha"] >= 1 and bits == 6:
+        if B >= 5 and split == "mixup" and cfg["mixup_alpha"] >= 1 and bits == 6 and not state["reconfigured"]:
             run.count("random_eligible_batches")
             if moved:
                 run.count("random_eligible_moved")
@@ -434,6 +540,19 @@ def _run_batch(run, spec, b, coll, k, earlier):
                 "batch_in_history": [k, 1 + len(spec.get("more", []))], "decoded[i, partners, kind, w_image, w_label, ctx_lambda]": decoded})
     earlier.append((k, (B, C, H, W), xs))
     return True
+
+
+def _w_of(st):
+    return st["img"]["w"] if st["img"]["w"] is not None else st["w_lab"]
+
+
+def _kind_allowed(st, split):
+    """can the reading come from a collator that only does `split` (mixup / cutmix)?"""
+    f = st["img"]
+    if f["kind"] == "self" or f["w"] is None:
+        return True
+    edge = f["w"] <= f["tol"] + W_EPS or f["w"] >= 1 - f["tol"] - W_EPS  # w in {0,1}: both kinds give the same image
+    return edge or f["kind"] == split
 
 
 def _judge_sample(i, J, X, Y, lam, xs, ys):
@@ -469,11 +588,11 @@ def _judge_sample(i, J, X, Y, lam, xs, ys):
     return {"good": good, "best": best}
 
 
-def _report(run, spec, cc, i, J, res, X, Y, lam, xs, ys, hist="", earlier=()):
+def _report(run, spec, cfg, cc, i, J, res, X, Y, lam, xs, ys, hist="", earlier=()):
     B = len(xs)
     best = res["best"]
-    mode = spec["cfg"]["shuffle_mode"]
-    head = f"{hist}sample {i} of B={B} ({spec['driver']}, {spec['cfg']}, mode={spec['mode']!r}, CHW={list(xs[0].shape)}): "
+    mode = cfg["shuffle_mode"]
+    head = f"{hist}sample {i} of B={B} ({spec['driver']}, {cfg}, mode={spec['mode']!r}, CHW={list(xs[0].shape)}): "
     if best["stage"] == 0:
         others = [(j, f) for j in range(B) if j not in J for f in image_fits(X[i], xs[i], xs[j], is_self=(j == i))]
         if others:
